@@ -330,12 +330,16 @@ def run_C01(ctx):
         cases.append(corpora.api("gnam.%d" % n, "h", b"a" * n, r, n))
     cases += corpora.adversarial(ctx.seed, [1024, 16384] if q else [1024, 65536, 1 << 20])
     small = [c for c in cases if len(c[6]) <= 70000]
+    # adjacent byte pairs (word-at-a-time arithmetic with carries between lanes): in full on the builds that trap overflow
+    pairs = corpora.fam_pair256()
     for variant in ("default", "dbg"):
         for force, be in ((None, "rt1"), (2, "rt2"), (3, "rt3")):
             sub = small if (variant == "default" and force is None) else small[::(5 if q else 2)]
+            if force is None:
+                sub = sub + pairs
             single_call(ctx, "C01", sub, variant=variant, force=force, mode="guard", model_be=be)
     # release code with overflow checks: "never overflows arithmetic" where the debug-only guards are gone
-    ovf = [c for c in small if c[2] == "c"] + corpora.fam_chunk_exh(3 if q else 5) + small[::(7 if q else 2)]
+    ovf = [c for c in small if c[2] == "c"] + corpora.fam_chunk_exh(3 if q else 5) + small[::(7 if q else 2)] + pairs
     single_call(ctx, "C01", ovf, variant="ovf", force=None, mode="guard", model_be="rt1")
     big = [c for c in cases if len(c[6]) > 70000]
     if big:
@@ -1473,7 +1477,10 @@ def time_scaling(ctx):
     cases = [c for d in fams.values() for c in d.values()]
     # the runtime-detected backend hides the word-at-a-time scanners behind the SIMD ones (they only see the
     # last < 32 bytes of a buffer): time the build with SIMD disabled too
-    for variant in ("default", "nosimd"):
+    # ... and the debug-assertions build: `debug_assert!`s and `cfg!(debug_assertions)` branches are code as well, and
+    # work done there (a cross-check walking the rest of the buffer once per block) is in no release build
+    need(ctx, ["dbg"])
+    for variant in ("default", "nosimd", "dbg"):
         _time_variant(ctx, variant, fams, cases)
 
 
